@@ -236,6 +236,17 @@ def main():
     if "--wave5" in args:
         SRC, NAMES, PREFIX = "/tmp/mutout5", NAMES5, "w5-"
         args.remove("--wave5")
+    if "--wave6" in args:      # names come from the agents' own name.txt files; extra checks: none
+        SRC, PREFIX = "/tmp/mutout6", "w6-"
+        args.remove("--wave6")
+        import re
+        NAMES = {}
+        for prop in sorted(os.listdir(SRC)):
+            for k in ("1", "2"):
+                f = f"{SRC}/{prop}/{k}/name.txt"
+                if os.path.exists(f) and os.path.exists(f"{SRC}/{prop}/{k}/patch.diff"):
+                    nm = re.sub(r"[^a-z0-9-]+", "-", open(f).read().strip().splitlines()[0].lower()).strip("-")[:60] or f"change-{k}"
+                    NAMES[(prop, k)] = (nm, [])
     jobs, only, run_tests = 4, None, True
     i = 0
     while i < len(args):
